@@ -368,8 +368,13 @@ def check_layered(case) -> Outcome:
     from formulaic.utils.layered_mapping import LayeredMapping
 
     out = Outcome()
-    supplied = [dict(l) for l in case["layers"]]
-    pristine = copy.deepcopy(supplied)
+    import collections
+
+    # some supplied layers are mappings with a __missing__ hook (defaultdict): looking a key up in the layered
+    # mapping must neither return their default nor insert into them
+    dd = case.get("dd") or []
+    supplied = [collections.defaultdict(int, l) if (dd and dd[i % len(dd)]) else dict(l) for i, l in enumerate(case["layers"])]
+    pristine = [dict(l) for l in supplied]
     named = case.get("names") or []
     real_layers, model_layers = [], []
     for i, l in enumerate(supplied):
@@ -512,6 +517,7 @@ def gen_layered():
     return st.fixed_dictionaries(
         {
             "layers": st.lists(layer, min_size=0, max_size=4),
+            "dd": st.lists(st.booleans(), max_size=3),
             "names": st.one_of(st.none(), st.lists(st.sampled_from(["data", "ctx", "", "inner"]), min_size=1, max_size=3)),
             "ops": st.lists(op, min_size=0, max_size=10),
         }
